@@ -1082,10 +1082,11 @@ static htp_status_t htp_martp_process_aside(htp_mpartp_t *parser, int matched) {
 }
 
 htp_status_t htp_mpartp_finalize(htp_mpartp_t *parser) {
-    if (parser->current_part != NULL) {
-        // Process buffered data, if any.
-        htp_martp_process_aside(parser, 0);
+    // Process buffered data, if any. This creates the last
+    // part when the buffered data is all there is of it.
+    htp_martp_process_aside(parser, 0);
 
+    if (parser->current_part != NULL) {
         // Finalize the last part.
         if (htp_mpart_part_finalize_data(parser->current_part) != HTP_OK) return HTP_ERROR;
 
